@@ -19,6 +19,9 @@ class CollectionValue(GenericValue):
     def __contains__(self, item):
         if self._old_value is undefined:
             state().missing_values += 1
+        else:
+            # the comparison comes first: nothing is recorded if it raises
+            result = item in self._old_value
 
         if self._new_value is undefined:
             self._new_value = [clone(item)]
@@ -31,12 +34,16 @@ class CollectionValue(GenericValue):
 
         # a missing item has to be counted as incorrect even if the comparison
         # succeeds because of fix/update
-        return self._return(item in self._old_value)
+        return self._return(result)
 
     def _new_code(self):
         return self._file._value_to_code(self._new_value)
 
     def _get_changes(self) -> Iterator[Change]:
+
+        if self._new_value is undefined:
+            # no comparison was completed (it raised an exception)
+            return
 
         if self._ast_node is None:
             elements = [None] * len(self._old_value)
